@@ -178,9 +178,12 @@ struct KCase
     return false;
   }
   const char* family() const { return order < 0 ? "SK" : (nfex > 0 ? "ED" : (order == 0 ? "OK" : "UK")); }
+  // failure key: <what>:<family>:<neighbourhood>:<target>; everything observed on blocks of a rotated grid is
+  // prefixed "block-rotgrid:" (recorded finding: the block discretisation ignores the grid rotation)
+  std::string key(const std::string& what) const { return ((block && gridRotated()) ? "block-rotgrid:" : "") + what + ":" + variant(); }
   std::string variant() const
   {
-    return std::string(family()) + ":" + (moving ? "moving" : "unique") + ":" + (block ? (gridRotated() ? "block-rotgrid" : "block") : "point");
+    return std::string(family()) + ":" + (moving ? "moving" : "unique") + ":" + (block ? "block" : "point");
   }
   template<class A> void io(A& a)
   {
@@ -735,9 +738,11 @@ public:
     for (int d = 0; d < c.ndim; d++) g.x0[(size_t)d] = grid->getCoordinate(k, d);
     int ntot = 1;
     for (int v : c.ndisc) ntot *= v;
-    VectorInt nd;
-    for (int v : c.ndisc) nd.push_back(v);
-    VectorVectorDouble r2 = grid->getDiscretizedBlock(nd, k, false, true, 1234546);
+    // randomised set: same draws as the library (its generator, seed 1234546, one uniform per point and per
+    // dimension, last dimension first), but laid out here so that the oracle does not depend on
+    // DbGrid::getDiscretizedBlock
+    int memo = law_get_random_seed();
+    law_set_random_seed(1234546);
     std::vector<double> U = vfgeo::rotationAxes(c.ndim, c.gang);
     for (int i = 0; i < ntot; i++)
     {
@@ -750,7 +755,7 @@ public:
         int j = jech / nval;
         jech -= j * nval;
         loc[(size_t)d] = c.gdx[(size_t)d] * ((j + 0.5) / ndd - 0.5);
-        rnd[(size_t)d] = r2[i][d];
+        rnd[(size_t)d] = loc[(size_t)d] + c.gdx[(size_t)d] * law_uniform(-0.5, 0.5) / (double)ndd;
       }
       if (rotateWithGrid && c.gridRotated())
       {
@@ -767,6 +772,7 @@ public:
       g.disc1.push_back(loc);
       g.disc2.push_back(rnd);
     }
+    law_set_random_seed(memo);
     return g;
   }
 
@@ -957,12 +963,13 @@ struct NbRef
   bool ambiguous = false;
   bool empty() const { return nb.empty(); }
 };
-inline NbRef refNeigh(const KCase& c, const double* x0)
+// `exclude`: rank of a sample left out (cross-validation), or -1
+inline NbRef refNeigh(const KCase& c, const double* x0, int exclude = -1)
 {
   NbRef R;
   int n = c.n();
   std::vector<int> adm((size_t)n, 0);
-  for (int i = 0; i < n; i++) adm[(size_t)i] = (c.active(i) && c.anyDef(i)) ? 1 : 0;
+  for (int i = 0; i < n; i++) adm[(size_t)i] = (c.active(i) && c.anyDef(i) && i != exclude) ? 1 : 0;
   if (!c.moving)
   {
     for (int i = 0; i < n; i++)
